@@ -174,6 +174,11 @@ func genProg(r *rand.Rand, kind string, nonClosing bool) prog {
 	if p.Status == 204 && (p.RespMode == 3 || p.RespMode == 4) {
 		p.Status = 200
 	}
+	if p.RespMode == 5 && kind != "head" {
+		// Response.SkipBody on a response that may have a body drops Content-Length as well (caller
+		// misuse: the message is then delimited by close); with 204 the response is bodiless by definition.
+		p.Status = 204
+	}
 	return p
 }
 
